@@ -1,12 +1,14 @@
 // shared by the harness (c20.rs) and by /verif/fmtcfg: the palette of element renderings (must
 // match lean/Driver/Fmt.lean), the element type, and the observation text
 
-pub const PALETTE: [&str; 22] = [
+pub const PALETTE: [&str; 24] = [
     "", "a", "ab", "äöü", "x\ny", "\n", "p\r\nq", "a longer rendering", "日本", "a\n\nb", "tail\n", "\r",
     "7", "-12", "3.25", "wide\nw\nlonger line", " ", "\n\n", "é", "tab\there",
     // wider than any fixed-size padding buffer one might think of (70 ASCII, 65 two-byte characters)
     "wwwwwwwwwwwwwwwwwwwwwwwwwwwwwwwwwwwwwwwwwwwwwwwwwwwwwwwwwwwwwwwwwwwwww",
     "ééééééééééééééééééééééééééééééééééééééééééééééééééééééééééééééééé",
+    // CR LF line breaks between multi-byte characters (a byte-offset slip lands inside a character)
+    "é\r\nü\r\n日本", "日\r\n\r\n本x",
 ];
 
 #[derive(Clone)]
